@@ -26,6 +26,11 @@ def carriers(s, os_):
     out.append(arc.Member(level=2, method=b"-lhd-", payload=b"", os=ord("U"), exts=[(arc.X_FILENAME, s + b"|t"), arc.x_perm(0o120777)]).bytes())
     out.append(arc.Member(level=2, method=b"-lhd-", payload=b"", os=ord("U"), exts=([(arc.X_PATH, s)] if s else []) + [arc.x_name(b"l|" + s), arc.x_perm(0o120777)]).bytes())
     out.append(arc.Member(level=1, method=b"-lhd-", name=b"", payload=b"", os=ord("U"), exts=([(arc.X_PATH, s + b"|" + s)] if s else []) + [arc.x_name(b"z"), arc.x_perm(0o120777)]).bytes())
+    # directory-method entries that are not links but carry a file name all the same (the format does not forbid it)
+    if s:
+        out.append(arc.Member(level=2, method=b"-lhd-", payload=b"", os=os_, exts=[(arc.X_PATH, b"d/"), (arc.X_FILENAME, s)]).bytes())
+        out.append(arc.Member(level=2, method=b"-lhd-", payload=b"", os=ord("U"), exts=[(arc.X_FILENAME, s), (arc.X_PATH, b"d/"), arc.x_perm(0o40755)]).bytes())
+        out.append(arc.Member(level=1, method=b"-lhd-", name=b"", payload=b"", os=os_, exts=[(arc.X_FILENAME, s), (arc.X_PATH, s)]).bytes())
     return out
 
 
@@ -42,6 +47,10 @@ def pair_carriers(s1, s2, os_):
         out.append(arc.Member(level=2, method=b"-lh0-", payload=b"x", os=os_, exts=[(arc.X_PATH, s1), (arc.X_FILENAME, s2)]).bytes())
         out.append(arc.Member(level=2, method=b"-lh0-", payload=b"x", os=os_, exts=[(arc.X_FILENAME, s2), (arc.X_PATH, s1)]).bytes())
         out.append(arc.Member(level=3, method=b"-lh0-", payload=b"x", os=os_, exts=[(arc.X_PATH, s1), (arc.X_PATH, s2), arc.x_name(b"f")]).bytes())
+        for pm in (None, 0o40755, 0o120777):
+            px = [arc.x_perm(pm)] if pm is not None else []
+            out.append(arc.Member(level=2, method=b"-lhd-", payload=b"", os=ord("U") if pm else os_, exts=[(arc.X_PATH, s1), (arc.X_FILENAME, s2)] + px).bytes())
+            out.append(arc.Member(level=2, method=b"-lhd-", payload=b"", os=ord("U") if pm else os_, exts=px + [(arc.X_FILENAME, s2), (arc.X_PATH, s1)]).bytes())
     return out
 
 
@@ -83,8 +92,8 @@ def run(tier, seed, ev):
     ev.set("cases", len(cases))
     ev.sample({"input_hex": cases[100].hex()})
     ev.sample({"input_hex": cases[-1].hex()[:300]})
-    ev.set("rule", "all strings over {'.','/','\\\\',0xFF,NUL,'a'} up to length %d through ten carriers (in-header names of level 0/1, file "
-                   "name and path extended headers, directory entries, symlinks in both spellings) + random longer strings" % maxlen)
+    ev.set("rule", "all strings over {'.','/','\\\\',0xFF,NUL,'a'} up to length %d through thirteen carriers (in-header names of level 0/1, file "
+                   "name and path extended headers, directory entries with and without a file name, symlinks in both spellings) + random longer strings" % maxlen)
     shutil.rmtree(sc, ignore_errors=True)
     return viols
 
